@@ -487,6 +487,7 @@ class CFG:
                 self.g.add_edge(u, v, labels=other)
             for lab in labs:
                 e = self._new('edge', self.nodes[u].ast, lab)
+                e.owner = self.nodes[u].owner
                 e.polarity_of = (u, lab)
                 self.g.add_edge(u, e.id, labels=[lab])
                 self.g.add_edge(e.id, v, labels=['next'])
@@ -526,6 +527,15 @@ class CFG:
             nd = self.nodes[d]
             if nd.kind == 'edge' and d != n:
                 out.append((nd.ast, nd.label == 'T'))
+        return out
+
+    def facts_owned(self, n: int):
+        """like facts_at, with the FunctionDef each test belongs to (the function itself or an inlined helper)"""
+        out = []
+        for d in self.dominators_of(n):
+            nd = self.nodes[d]
+            if nd.kind == 'edge' and d != n:
+                out.append((nd.ast, nd.label == 'T', nd.owner))
         return out
 
     def nodes_of(self, pred) -> List[Node]:
